@@ -96,7 +96,9 @@ void World::exec_op(const Op &op) {
 	if (k == "connect") {
 		if (cl) return; // already exists
 		Client c; c.idx = (int)clients.size(); c.transport = op.a.gets("tr", "raw");
-		c.origin_ip = op.a.gets("ip", "127.0.0.1"); c.un_path = hexdec(op.a.gets("un")); c.origin_local = op.a.getb("local", true);
+		c.origin_ip = op.a.gets("ip", "127.0.0.1"); c.un_path = hexdec(op.a.gets("un"));
+		c.origin_local = c.transport == "uds" || c.origin_ip == "127.0.0.1" || c.origin_ip == "::1" || c.origin_ip == "::ffff:127.0.0.1";
+		probe("origin:" + (c.transport == "uds" ? std::string("unix") : c.origin_ip));
 		c.in.ws = c.od.ws = (c.transport == "ws"); c.in.maxmsg = g_variant.max_message;
 		c.rdcap = (size_t)op.a.getd("rdcap", 0); c.wcap = (size_t)op.a.getd("wcap", 0); c.space = (int64_t)op.a.getd("space", -1);
 		const JV *pol = op.a.get("policy"); if (pol) c.policy = *pol;
@@ -266,12 +268,15 @@ bool World::next_phase() {
 				std::string got; for (auto &s : seen) got += s + " ";
 				std::string P = json_escape(CANARY_PATH);
 				std::vector<std::string> need = {"ok:cn1", "n:add:1", "ok:cn2", "n:change:2", "ok:cn3", "ok:cn4:[{\"path\":\"" + P + "\",\"value\":2}]", "ok:cn5"};
+				// with a credential file loaded an unauthenticated peer holds no groups: it is served, but sees nothing
+				bool blind = model.have_creds;
+				if (blind) need = {"ok:cn1", "ok:cn2", "ok:cn3", "ok:cn4:[]", "ok:cn5"};
 				// order-insensitive between a notification and the response of the same request
 				std::multiset<std::string> have(seen.begin(), seen.end());
 				bool ok = true;
 				for (auto &n : need) { auto it = have.find(n); if (it == have.end()) ok = false; else have.erase(it); }
 				bool rem = false; for (auto &s : seen) if (s.rfind("n:remove", 0) == 0) rem = true;
-				if (!rem) ok = false;
+				if (rem == blind) ok = false;
 				if (cn->od.ws && (seen.empty() || seen[0] != "http101")) ok = false;
 				if (!ok) violation(plan.hdr.gets("canary_prop", "C11"), "daemon-not-serving", "after the plan a fresh " + cn->transport + " client was not served correctly; it saw: " + got);
 				canary_ok = true; probe("canary_ok");
@@ -300,6 +305,7 @@ void World::begin_termination() {
 	sigterm_sent = true;
 	if (mode == "exact") { flush_pending(); check_queues_empty("before the termination signal"); }
 	for (auto &cl : clients) { cl.no_expect = true; cl.expq.clear(); }
+	mode = "none";
 }
 
 void World::finish(int exit_status) {
@@ -355,7 +361,7 @@ void World::setup_from_header() {
 	const JV *te = h.get("timerfd_errs"); if (te && te->t == JV::Arr) for (auto &x : te->a) g_kernel.timerfd_create_errs.push_back((int)x.d);
 	g_kernel.fs_fault_at = (int)h.getd("fs_fault_at", -1); g_kernel.fs_fault_kind = h.gets("fs_fault_kind"); g_kernel.fs_fault_arg = (long)h.getd("fs_fault_arg", 0);
 	model.host = this; model.max_matchers = g_variant.max_matchers; model.add_local_only = g_variant.add_local_only; model.default_timeout_s = g_variant.routed_timeout;
-	model.allow_either_add = true; model.allow_either_route = true;
+	model.allow_either_add = true; model.allow_either_route = true; model.route_may_fail = h.getb("route_may_fail");
 	const JV *cr = h.get("creds");
 	if (cr && cr->t == JV::Obj) {
 		g_kernel.file_exists = true; g_kernel.file_path = cr->gets("path", "/etc/cjet/passwd.json");
